@@ -1,5 +1,5 @@
 (* C27  Link control PDUs get the specified responses.  Statements only; proofs in LL/LLProofs.v. *)
-From BT Require Import Base.ListX LL.LLModel LL.LLSpec LL.LLSpecC27 LL.LLProofs.
+From BT Require Import Base.ListX LL.LLModel LL.LLSpec LL.LLSpecC27 LL.LLProofs LL.LLProofsC27Sim.
 From BT Require gen.GenLL.
 Import ListNotations.
 Local Open Scope N_scope.
@@ -101,10 +101,35 @@ Theorem C27_fragment_blocks_reception_refuted :
   mrun27 cfg_base (minit27 cfg_base) (trace_of cfg_base witness_fragment) = Bad 3.
 Proof. exact witness_fragment_rejected. Qed.
 
-(* What is proved of the monitor: the three theorems above about the code (table, answers, timeout) are the clauses
-   the monitor checks; a proof that the monitor accepts every model trace that avoids phy_update_request(),
-   remote_versions_request() and LLID 1 PDUs (C27_monitor_accepts_all_partial) is MISSING - it is tested on every run
-   (the monitor judges the model's and the implementation's traces), not proved. *)
+(* 5. WHAT HOLDS OF THE MONITOR, for operation sequences of any length: inside the environment [env27] the monitor accepts
+   the model's trace. [env27 c s ops] is computed along the run (like C40's env_run): every operation is allowed by
+   [op_ok27] - no phy_update_request(), no remote_versions_request(), no LLID 1 PDU with a payload (the three known
+   findings), PDU bytes are bytes - and no result is FAULT (no delta_time assert fails). [cfg_ok27]: every configuration
+   except asynchronous_connection_parameter_request<> (desired_connection_parameters<> with min <= max < 2^16).
+   Everything else is inside: all control PDUs of any size and content (also instant based and encryption PDUs,
+   disconnect(), cancelation - the monitor stops judging there, the proof shows it does so consistently), L2CAP PDUs,
+   a blocked transmit buffer, own connection parameter requests with their 40 s timeout, missed events, reconnects.
+   Missing w.r.t. the full statement: exactly the environment (and the asynchronous configuration). *)
+Theorem C27_monitor_accepts_partial :
+  forall (c : cfg) (ops : list lop),
+    cfg_ok27 c = true -> env27 c (linit c) ops = true -> accepts27 c (trace_of c ops).
+Proof. exact monitor27_accepts_partial. Qed.
+Print Assumptions C27_monitor_accepts_partial.
+
+(* the coupling invariant is kept by every single operation (the induction step of the theorem above) *)
+Theorem C27_simulation_step :
+  forall c s m o s' r,
+    cfg_ok27 c = true -> Sim c s m -> op_ok27 o = true -> lstep c s o = (s', r) -> r <> OCrash ->
+    exists m', mstep27 c m o r = (Ok, m') /\ Sim c s' m'.
+Proof. exact sim_step. Qed.
+
+(* the answer to LL_CONNECTION_PARAM_REQ lies in the configured ranges (desired_connection_parameters<>), echoes the
+   request (no_desired_connection_parameters) or is the reject - for every 24 byte request *)
+Theorem C27_connection_parameter_answer :
+  forall c s body, cfg_ok27 c = true -> length body = 24%nat ->
+    exists r, handle_cpr c s body = (Some r, []) /\ cpr_answer_ok c body r = true.
+Proof. exact cpr_answer. Qed.
+Print Assumptions C27_connection_parameter_answer.
 
 (* non-vacuity *)
 Example C27_monitor_accepts_a_full_session : mrun27 cfg_base (minit27 cfg_base) (trace_of cfg_base session_ok) = Ok.
@@ -112,6 +137,16 @@ Proof. exact session_ok_accepted. Qed.
 Example C27_session_ends_with_response_timeout :
   exists it, nth_error (trace_of cfg_base session_ok) 19 = Some (Ev 0 [], OItems it) /\ In closed22 it.
 Proof. exact session_ok_ends_with_0x22. Qed.
+Example C27_environment_is_satisfiable :
+  cfg_ok27 cfg_base = true /\ env27 cfg_base (linit cfg_base) session_ok = true.
+Proof. vm_compute. split; reflexivity. Qed.
+Example C27_environment_excludes_the_witnesses :
+  env27 cfg_base (linit cfg_base) witness_phy = false /\ env27 cfg_base (linit cfg_base) witness_version = false
+  /\ env27 cfg_base (linit cfg_base) witness_fragment = false.
+Proof. vm_compute. repeat split; reflexivity. Qed.
+Example C27_environment_holds_for_desired_parameters :
+  cfg_ok27 (mk_cfg false false 500 (CprDesired 10 40 1 5 100 300) true 31 [71; 17; 8; 21; 15; 192]) = true.
+Proof. reflexivity. Qed.
 Example C27_quiet_is_satisfiable :
   quiet cfg_base (lfinal cfg_base (linit cfg_base) [Run; connect_30ms; Ev 0 []]).
 Proof. vm_compute. repeat split; reflexivity. Qed.
